@@ -5,7 +5,7 @@
 
   api: RP | CA n | CO n | TR | TG.   k: 0 = no fault, else the k-th probe of this call faults; kind: t | i.
   beh (prefix form): K | S a b | P id | T | I | Ft n b | Fc n b | Fn n b | Fo b | FO ret b | Fr b | Fb b
-                   | Y hc hf body handler fin | G n b | At b | Aw b | Ap b | J b
+                   | Y hc hf body handler fin | G n b | At b | Aw b | Ap b | Bt b | Bw b | Bp b | J b
   Answer: per call  <outcome>|<trace>|<state>  joined by " ; ", where trace = "id:c,t,i,r …" and
   state = sp,sb,prgNil,stashGlobal,privNil,callLen,tryLen,iterLen,refLen,jobs,interrupted.
 -/
@@ -71,6 +71,15 @@ def parseBeh : Nat → List String → Option (Beh × List String)
     | "Ap" :: r => do
       let (b, r1) ← parseBeh fuel r
       pure (.api .runProgramRec b, r1)
+    | "Bt" :: r => do
+      let (b, r1) ← parseBeh fuel r
+      pure (.swallow .try_ b, r1)
+    | "Bw" :: r => do
+      let (b, r1) ← parseBeh fuel r
+      pure (.swallow .runWrapped b, r1)
+    | "Bp" :: r => do
+      let (b, r1) ← parseBeh fuel r
+      pure (.swallow .runProgramRec b, r1)
     | "J" :: r => do
       let (b, r1) ← parseBeh fuel r
       pure (.job b, r1)
